@@ -448,6 +448,12 @@ func runC25(c *Ctx) {
 				okReplay = false
 			}
 			r.Check(okReplay, "R-VERIFY-GUARDS", "VerifyProof|replay", u.Pos(in.Pos()), "accepted only with no cache or a first-seen nonce", "success reachable without passing the replay cache")
+			// the replay key is the proof's nonce field — the one value the MAC covers that identifies a proof,
+			// not a string an attacker can re-spell (the raw token has several encodings of one MAC)
+			for _, ca := range u.Calls(fn, Is("(*nonceCache).checkAndAdd")) {
+				d := u.Describe(ca.Arg(1))
+				r.Check(strings.HasPrefix(d, "strings.Split(token, ") && strings.HasSuffix(d, ")[3]"), "R-VERIFY-GUARDS", "VerifyProof|replay-key", u.Pos(ca.Instr.Pos()), "replay cache keyed by the proof's nonce field", "replay cache is keyed by "+d+" instead of the MAC-covered nonce (parts[3]): the same proof under a different spelling of the token counts as new")
+			}
 		})
 		// MAC inputs
 		for _, cs := range u.Calls(fn, Is("crypto/hmac.New")) {
